@@ -24,6 +24,13 @@ EXPLANATION = (
     "removes: remove_ansi is re.sub(pattern, '', s) with nothing in the count/flags slots, its pattern's language lies "
     "within ECMA-48 CSI sequences and contains every ordinary numeric CSI.  X4 verbatim path: without 'ESC[' in s the "
     "result is FmtStr(Chunk(s)) with s itself; fmtstr(s) adds no attributes."
+    "  X5 small-scope enumeration: fmtstr(s) is interpreted for EVERY string of length <= 4 (thorough: <= 5) over the alphabet "
+    "{a, newline, ESC, 0x9b, '[', '1', ';', 'm', 'H'} (thorough: plus an intermediate and a private-parameter byte) - 7390 "
+    "(177 156) strings, i.e. well-formed, truncated, nested and malformed sequences in every position - plus real-world "
+    "samples: it never raises; without ESC / 0x9b the text comes back verbatim and unformatted; the result's text is the "
+    "input with only characters removed, and only characters that lie inside an escape-sequence region (introducer, "
+    "parameter / intermediate bytes, one final byte); when all sequences are ordinary numeric 7-bit CSI sequences the text "
+    "is exactly the input without them."
 )
 NOT_DECIDED = ("exactly which characters of malformed/nested sequences are kept when both patterns and the fallback pattern "
                "disagree (a regular-language difference that is decidable but not attempted); re/str internals.")
@@ -254,6 +261,119 @@ def rule_x4(src, rep, it, counts):
     counts["from_str_outcomes"] = 2
 
 
+def _regions(s):
+    """Index set of characters that may belong to an escape sequence: an introducer (ESC, optionally followed by '[', or
+    0x9b) and the longest following run of parameter / intermediate bytes, plus one final byte when there is one.  Everything
+    outside is ordinary text beyond doubt."""
+    inside = set()
+    i = 0
+    while i < len(s):
+        if s[i] in "\x1b\x9b":
+            j = i + 1
+            if s[i] == "\x1b" and j < len(s) and s[j] == "[":
+                j += 1
+            elif s[i] == "\x1b":
+                # two-character escape sequence: ESC + one byte 0x40-0x5f other than '[' (or a lone ESC)
+                if j < len(s) and "\x40" <= s[j] <= "\x5f":
+                    j += 1
+                inside.update(range(i, j))
+                i = j
+                continue
+            while j < len(s) and "\x20" <= s[j] <= "\x3f":
+                j += 1
+            if j < len(s) and "\x40" <= s[j] <= "\x7e":
+                j += 1
+            inside.update(range(i, j))
+            i = j
+        else:
+            i += 1
+    return inside
+
+
+# an ORDINARY numeric CSI sequence: no parameters, or decimal numbers separated by single semicolons (empty parameters between or
+# before semicolons are legal ECMA-48 but not what the statement calls ordinary; the code is not held to them)
+_NUMERIC_CSI = re.compile("\x1b\\[(?:[0-9]+(?:;[0-9]+)*)?[\x40-\x7e]")
+
+
+def rule_small_scope(src, rep, it, counts):
+    """X5: fmtstr(s) interpreted for EVERY string up to a length bound over an alphabet of ordinary characters, newline, ESC,
+    the 8-bit CSI, '[', a digit, ';' and two final bytes (thorough: also an intermediate and a private-parameter byte)."""
+    import itertools
+    from ..par import pmap
+    from ..models import runs_of
+    f = src.func("formatstring", "FmtStr.from_str")
+    alphabet = "a\n\x1b\x9b[1;mH" + (" ?" if rep.tier == "thorough" else "")
+    maxlen = 5 if rep.tier == "thorough" else 4
+    strings = [""]
+    for n in range(1, maxlen + 1):
+        strings.extend("".join(t) for t in itertools.product(alphabet, repeat=n))
+    strings += ["\x1b[38;5;196mred\x1b[0m", "\x1b[m", "\x1b[01;34mdir\x1b[0m/\n", "\x1b[2J\x1b[1;1Hx", "a\x1b[1;31;44mb\x1b[39;49mc\x1b[0m",
+                "\x1b[?25lq", "\x1b]0;title\x07z", "\x1b[1m\x1b[1m\x1b[0m", "\x1b[3" + "1" * 30 + "mX"]
+
+    def one(s):
+        r = it.call1("formatstring", "fmtstr", s)
+        if r[0] == "opaque":
+            return ("error", "fmtstr(%r) outside the evaluated subset: %s" % (s, r[1]))
+        if r[0] != "ok":
+            return ("X5-never-raises", s, "fmtstr(%r) raises %s" % (s, r[1]))
+        runs = runs_of(r[1])
+        text = "".join(t for t, _ in runs)
+        if "\x1b" not in s and "\x9b" not in s:
+            if text != s or any(a for _, a in runs if any(a.values())):
+                return ("X5-plain-text-verbatim-and-unformatted", s, "fmtstr(%r) gives %r" % (s, runs))
+            return None
+        inside = _regions(s)
+        # text must be obtainable from s by deleting only characters inside escape-sequence regions
+        reach = {0}
+        for i, ch in enumerate(s):
+            nxt = set()
+            for j in reach:
+                if j < len(text) and text[j] == ch:
+                    nxt.add(j + 1)
+                if i in inside:
+                    nxt.add(j)
+            reach = nxt
+            if not reach:
+                break
+        if len(text) not in reach:
+            # distinguish: not even a subsequence?
+            k = 0
+            for ch in s:
+                if k < len(text) and text[k] == ch:
+                    k += 1
+            if k < len(text):
+                return ("X5-text-only-loses-characters", s, "fmtstr(%r) has text %r, which is not %r with characters removed" % (s, text, s))
+            return ("X5-ordinary-characters-kept", s, "fmtstr(%r) has text %r: a character that is not part of an escape sequence was dropped" % (s, text))
+        if "\x9b" not in s:
+            stripped = _NUMERIC_CSI.sub("", s)
+            if "\x1b" not in stripped and text != stripped:
+                return ("X5-numeric-csi-removed-exactly", s, "fmtstr(%r) has text %r; without its numeric CSI sequences the input is %r" % (s, text, stripped))
+        return None
+    results = pmap(one, strings, min_chunk=64)
+    bad = {}
+    for s_, res in zip(strings, results):
+        rep.case("\x1b" in s_ or "\x9b" in s_)
+        if res is None:
+            continue
+        if res[0] == "error":
+            raise AnalysisError(res[1])
+        bad.setdefault(res[0], []).append(res[1:])
+    groups = {"X5-never-raises": "fmtstr(s) for every string of the enumeration",
+              "X5-plain-text-verbatim-and-unformatted": "strings without ESC / 0x9b in the enumeration",
+              "X5-text-only-loses-characters": "result text vs input for every string of the enumeration",
+              "X5-ordinary-characters-kept": "characters outside escape sequences for every string of the enumeration",
+              "X5-numeric-csi-removed-exactly": "strings whose escape sequences are all numeric CSI sequences"}
+    for rule, group in groups.items():
+        items = bad.get(rule, [])
+        if items:
+            items.sort(key=lambda x: (len(x[0]), x[0]))
+            rep.ob(rule, f.where(), f.scope, group, False, "%s (%d of %d strings fail this rule)" % (items[0][1], len(items), len(strings)),
+                   witness={"input": items[0][0]})
+        else:
+            rep.ob(rule, f.where(), f.scope, group, True)
+    counts["enumerated_strings"] = len(strings)
+
+
 def check(src, rep):
     rep.explanation = EXPLANATION
     rep.not_decided = NOT_DECIDED
@@ -270,7 +390,9 @@ def check(src, rep):
         rep.guard(rule_x1, src, rep, it, tm, counts)
     rep.guard(rule_x3, src, rep, fold, counts)
     rep.guard(rule_x4, src, rep, it, counts)
+    rep.guard(rule_small_scope, src, rep, it, counts)
     rep.extracted["counts"] = counts
+    rep.floor("enumerated strings", counts.get("enumerated_strings", 0), 5000)
     rep.floor("tokenizer patterns", counts.get("tokenizer_patterns", 0), 2)
     rep.floor("token shapes pushed through token_type", counts.get("token_shapes", 0), 300)
     rep.floor("CSI final bytes", counts.get("csi_final_bytes", 0), 63)
